@@ -1,4 +1,5 @@
 import FinProtoc.Proofs.DecSound
+import FinProtoc.Proofs.RoundTrip
 import FinProtoc.Props.C01
 /-!
 # C02 — decoders invert encoders and consume exactly one message
@@ -9,8 +10,12 @@ Two layers (DESIGN §8 C02):
   byte string — valid encoding or not — whenever the *declared* decoder `Wire.dec` reads field
   values `vs` and leaves `rest` unread, the emitted decoder reads exactly `vs` and leaves exactly
   `rest`.  This is what ties the printed text of the five targets to the specification.
-* the specification-level round trip `Wire.dec (Wire.enc v ++ sfx) = (norm v, sfx)` is stated
-  in `Props/C02Spec.lean` for the part of the value domain proved so far.
+* `spec_roundtrip_plain` (proved, all inputs of its domain): the declared decoder inverts the declared encoder on
+  every *plain* message (`Wire.plainVal`: every field kind except match payloads and the computed members, any
+  nesting, any list lengths within the prefix range), whatever bytes follow; with the two soundness theorems this gives
+  `emitted_roundtrip_plain`: for every accepted emitted program, decoding what its own encoder wrote returns the
+  message and consumes exactly it.  For messages with match payloads, length-of and checksum members the round trip is
+  evaluated per run on sampled messages (driver op `search`) and per emitted self-test (C17) — `_plain` marks the limit.
 -/
 namespace FinProtoc.Props
 open FinProtoc FinProtoc.IR FinProtoc.Conforms FinProtoc.Wire
@@ -19,6 +24,27 @@ theorem dec_sound (S : Schema) (P : Prog) (hconf : confDec S P = true) (fuel : N
     (vs : List Val) (rest : Bytes) (h : Wire.dec S fuel pkt bs = some (vs, rest)) :
     decStruct P fuel pkt bs = some (vs, rest) :=
   Proofs.dec_sound_all hconf fuel pkt bs (vs, rest) h
+
+/-- the declared round trip on plain messages (specification level) -/
+theorem spec_roundtrip_plain (S : Schema) (reg : Registry) (pkt : String) (vs : List Val) (acc r : Bytes)
+    (hp : Wire.plainVal S (.obj pkt) (.struct vs) = true) (h : Wire.enc S reg pkt vs acc = some r) :
+    ∃ xs, r = acc ++ xs ∧ ∀ fuel sfx, depthList vs < fuel → Wire.dec S fuel pkt (xs ++ sfx) = some (vs, sfx) :=
+  Wire.dec_enc_plain S reg pkt vs acc r hp h
+
+/-- C02 end to end for plain messages: an accepted emitted program decodes what it encoded, and consumes exactly it -/
+theorem emitted_roundtrip_plain (S : Schema) (P : Prog) (hE : confEnc S P = true) (hD : confDec S P = true)
+    (reg : Registry) (pkt : String) (vs : List Val) (bs : Bytes)
+    (hp : Wire.plainVal S (.obj pkt) (.struct vs) = true)
+    (hsafe : lenSafeVal S (.obj pkt) (.struct vs) = true)
+    (hwire : Wire.enc S reg pkt vs [] = some bs) (fuel : Nat) (hfuel : depthList vs < fuel) :
+    encStruct P reg fuel pkt vs [] = some bs ∧
+      ∀ sfx, decStruct P fuel pkt (bs ++ sfx) = some (vs, sfx) := by
+  refine ⟨enc_sound S P hE reg pkt vs [] bs hsafe hwire fuel hfuel, ?_⟩
+  intro sfx
+  obtain ⟨xs, hx, hd⟩ := Wire.dec_enc_plain S reg pkt vs [] bs hp hwire
+  simp only [List.nil_append] at hx
+  subst hx
+  exact dec_sound S P hD fuel pkt _ vs sfx (hd fuel sfx hfuel)
 
 /-- C03 (decoder half): two accepted programs decode alike wherever the declared decoder is defined. -/
 theorem dec_agree (S : Schema) (P₁ P₂ : Prog) (h₁ : confDec S P₁ = true) (h₂ : confDec S P₂ = true)
@@ -43,5 +69,8 @@ def exBytes : Bytes := [1, 0, 10, 0, 0, 0, 48, 48, 65, 66, 2, 0, 2, 104, 105, 0,
 def exDecoded : List Val := [.int 1, .int 10, .dyn "Logon" [.str [65, 66], .list [.str [104, 105], .str []]], .int 7]
 example : (Wire.dec exS 3 "Msg" (exBytes ++ [0xAB])).map (fun x => (beqList x.1 exDecoded, x.2)) = some (true, [0xAB]) := by decide
 example : (decStruct exPD 3 "Msg" (exBytes ++ [0xAB])).map (fun x => (beqList x.1 exDecoded, x.2)) = some (true, [0xAB]) := by decide
+
+-- non-vacuity of the round trip: the Logon payload of the example is a plain message
+example : Wire.plainVal exS (.obj "Logon") (.struct [.str [65, 66], .list [.str [104, 105], .str []]]) = true := by decide
 
 end FinProtoc.Props
